@@ -459,6 +459,8 @@ def judge_design(c, b, drv, per_valid, cap):
             if not v.get("response_documented"):
                 c.fail("c14/declared-error-status-undocumented", "%s.%s: declared error answered with status %s, which the operation does not document" %
                        (cmd["service"], cmd["method"], st), input={"seed": c.seed, "index": b.index, "command": cmd}, design=b.design)
+            elif not v.get("response_ok") and "unsupported content type" in (v.get("response_err") or ""):
+                c.hist("validator-limitation", "kin-openapi cannot decode a non-JSON error body")  # not a verdict about goa
             elif not v.get("response_ok"):
                 c.fail("c14/error-response:" + kin_class(v.get("response_err")), "%s.%s [%s]: the error response (status %s) does not conform to its documented schema: %s" %
                        (cmd["service"], cmd["method"], label, st, v.get("response_err", "")[:300]),
